@@ -28,6 +28,7 @@ pub fn generate(prop: &str, thorough: bool, seed: u64, em: &mut Emitter) {
         "C14" => c14::generate(thorough, seed, part, em),
         "C19" => c19::generate(thorough, seed, part, em),
         "C18" => c18::generate(thorough, seed, part, em),
+        "C06" => gsess::generate_c06(thorough, seed, part, em),
         "C10" => gsess::generate_c10(thorough, seed, part, em),
         "C11" => gsess::generate_c11(thorough, seed, part, em),
         "C12" => gsess::generate_c12(thorough, seed, part, em),
